@@ -796,7 +796,7 @@ class CompilerPassGenerateCode(CompilerPass):
         elif isinstance(test_node, (nodes.BoolOp, nodes.Name, nodes.Attribute)):
             data.add(IC10("bnez" if negate_test else "beqz", [test, else_label]))
         elif isinstance(test_node, nodes.Call) and try_replace_call_with_branch(
-            test_node, else_label
+            test_node, else_label, negate_test
         ):
             pass
         else:
